@@ -385,7 +385,7 @@ pub fn replay(part: &str, case: serde_json::Value) -> Option<CaseResult> {
 pub fn meta() -> EvidenceMeta {
     EvidenceMeta {
         level: "exploration",
-        rule: "cases = builder inputs: multiset of appender names over a 4-name pool (duplicates likely, each occurrence a distinguishable capture appender), 0-6 loggers whose names come from strings over {a,b,:}, concatenations of components and colon runs, well-formed paths, and duplicates of earlier names with different content; references drawn from pool + 2 nonexistent names with repeats; plus the exhaustive sweep of all 3280 names over {a,b,:} up to length 7. Oracle: name validity written from the statement (non-empty, every colon run of length exactly 2, none trailing; runs of even length >= 4 are unsettled: either outcome accepted); build() Ok iff no offence; every reported error names a real offence of its kind (counted) and every offending item is covered; build_lossy's Config accessors equal the valid part (first occurrence wins, dangling references stripped, original order); every returned Config is installed and probed under catch_unwind and deliveries equal route() on the valid part, from first-occurrence appenders only. non-trivial = >=2 offence kinds, or an invalid name of length >=3 containing '::', or a duplicate whose second occurrence differs".into(),
+        rule: "cases = builder inputs: multiset of appender names over a 4-name pool (duplicates likely, each occurrence a distinguishable capture appender), 0-6 loggers whose names come from strings over {a,b,:}, concatenations of components and colon runs, well-formed paths, and duplicates of earlier names with different content; references drawn from pool + 2 nonexistent names with repeats; plus the exhaustive sweep of all 3280 names over {a,b,:} up to length 7. Oracle: name validity written from the statement (non-empty, every colon run of length exactly 2, none trailing; runs of even length >= 4 are unsettled: either outcome accepted); build() Ok iff no offence; every reported error names a real offence of its kind (counted) and every offending item is covered; build_lossy's Config accessors equal the valid part (first occurrence wins, dangling references stripped, original order); every returned Config is installed and probed under catch_unwind and deliveries equal route() on the valid part, from first-occurrence appenders only. Appender names include the empty string and a blank. non-trivial = >=2 offence kinds, or an invalid name of length >=3 containing '::', or a duplicate whose second occurrence differs".into(),
         assumptions: vec!["a colon run of even length >= 4 ('a::::b') is not settled by the statement; both outcomes are accepted and counted".into()],
         mutants_caught: vec![],
     }
